@@ -239,6 +239,30 @@ func setupCdp(w *World) {
 		p.Products = append(p.Products, &ProductInfo{ExtID: id, AppID: p.AppID, PairID: stablePair, In: stableIn, Out: p.Debt, Stable: true})
 	}
 
+	// a sister app (knob sister_app): one fee-less product on the first collateral under a second app that is whitelisted for
+	// nothing (no liquidation, no interest, no collector table). Its vaults share the vault list, the custody account and the
+	// liquidation sweep with the main app's: every sweep step on one of them reports failure.
+	if cfg.KB("sister_app") {
+		sister := w.addApp("sister", "sis")
+		p.AppIDs = append(p.AppIDs, sister)
+		c := colls[0]
+		floor := debtUnit.QuoRaw(10)
+		ceil := debtUnit.MulRaw(r.Range(20, 5000))
+		if p.Debt.Decimals.GT(pow10(8)) {
+			floor = debtUnit.QuoRaw(100)
+			ceil = debtUnit.MulRaw(r.Range(1, 9))
+		}
+		b := &bindings.MsgAddExtendedPairsVault{
+			AppID: sister, PairID: pairOf[c.ID], StabilityFee: sdk.ZeroDec(), ClosingFee: sdk.ZeroDec(), LiquidationPenalty: decStr("0.1"), DrawDownFee: sdk.ZeroDec(),
+			IsVaultActive: true, DebtCeiling: ceil, DebtFloor: floor, MinCr: decStr([]string{"1.2", "1.5", "2"}[r.Intn(3)]), PairName: c.Name + "-S",
+			AssetOutOraclePrice: p.Debt.Oracle && r.Bool(), AssetOutPrice: uint64(r.Range(900000, 1100000)), MinUsdValueLeft: 0,
+		}
+		if err := w.App.AssetKeeper.WasmAddExtendedPairsVaultRecords(ctx, b); err != nil {
+			panic(fmt.Sprintf("add sister ext pair: %v", err))
+		}
+		p.Products = append(p.Products, &ProductInfo{ExtID: w.App.AssetKeeper.GetPairsVaultID(ctx), AppID: sister, PairID: pairOf[c.ID], In: c, Out: p.Debt})
+	}
+
 	// collector lookup for the debt asset (fees are booked per (app, debt asset))
 	lsr := []sdk.Dec{sdk.ZeroDec(), decStr("0.02"), decStr("0.2")}[r.Intn(3)]
 	if err := w.App.CollectorKeeper.WasmSetCollectorLookupTable(ctx, &bindings.MsgSetCollectorLookupTable{
